@@ -8,7 +8,7 @@ import random
 import sys
 logging.disable(logging.CRITICAL)
 
-from haiway import State, ctx
+from haiway import State, ctx, not_missing
 from haiway.context.metrics import MetricsContext
 
 
@@ -76,24 +76,59 @@ def run_program(rng):
             if got != want:
                 problems.append(f"{where}: scope s{sid} holds {got} for {T.__name__}, left fold of its records gives {want}")
 
+    children = {}
+
+    def fold(cur, item):                 # merge of the merged view: concatenating / summing, never commutative for M2
+        return item if not not_missing(cur) else m_sum(cur, item)
+
+    def expected_merged(sid, T):
+        vals = [model[sid][T]] if T in model[sid] else []
+        for c in children[sid]:
+            v = expected_merged(c, T)
+            if v is not None:
+                vals.append(v)
+        if not vals:
+            return None
+        out = vals[0]
+        for v in vals[1:]:
+            out = m_sum(out, v)
+        return out
+
+    def check_merged(sid, where):
+        m = MetricsContext._context.get()
+        try:
+            got = {type(x): x for x in m.metrics(merge=fold)}
+        except Exception as e:  # noqa
+            problems.append(f"{where}: merged view of s{sid} raised {e!r}")
+            return
+        for T in (M1, M2, M3):
+            want = expected_merged(sid, T)
+            if got.get(T) != want:
+                problems.append(f"{where}: merged view of s{sid} gives {got.get(T)} for {T.__name__}, folding its records and "
+                                f"its nested scopes in creation order gives {want}")
+
     def walk(depth):
         sid = counter[0]
         counter[0] += 1
         model[sid] = {}
+        children[sid] = []
         with ctx.scope(f"s{sid}"):
             for _ in range(rng.randint(0, 3)):
                 record(sid)
             check(sid, "before children")
             if depth > 0:
                 for _ in range(rng.randint(0, 2)):
+                    children[sid].append(counter[0])
                     walk(depth - 1)
-                    record(sid)
+                    if rng.random() < 0.7:
+                        record(sid)
                     check(sid, "after a child")
+            check_merged(sid, "at the end of the block")
     try:
         ctx.record(M1(v=1))           # outside any scope: must not raise
     except Exception as e:  # noqa
         return [f"ctx.record outside any scope raised {e!r}"]
-    walk(2)
+    walk(3)
     return problems
 
 
